@@ -22,7 +22,11 @@ os.makedirs(dst, exist_ok=True)
 for f in ('patch.diff', 'demo.rs', 'notes.md'):
     if os.path.exists(os.path.join(src, f)):
         shutil.copyfile(os.path.join(src, f), os.path.join(dst, f))
-out = subprocess.run(['/verif/tools/try_seed.sh', os.path.join(dst, 'patch.diff')], stdout=subprocess.PIPE, stderr=subprocess.STDOUT, text=True).stdout
+out = ''
+if os.environ.get('KEEP_TRY') == '1':
+    out = subprocess.run(['/verif/tools/try_seed.sh', os.path.join(dst, 'patch.diff')], stdout=subprocess.PIPE, stderr=subprocess.STDOUT, text=True).stdout
+elif os.path.exists('/var/tmp/try/%s.txt' % tag):
+    out = open('/var/tmp/try/%s.txt' % tag).read()   # first run against /repo (tools/try_seed.sh), before any rule was added for it
 keys = re.findall(r'^(C\d+):\s+rule \S+\s+key (\S.*)$', out, re.M)
 notes = open(os.path.join(dst, 'notes.md')).read() if os.path.exists(os.path.join(dst, 'notes.md')) else ''
 title = notes.splitlines()[0].lstrip('# ').strip() if notes else ''
@@ -36,9 +40,7 @@ meta = {
     'verification': ver,
     'also_check': sorted(set(k for k, _ in keys) - {prop}),
     'expect': [],
-    'detected_by': [{'check': c, 'key': k} for c, k in keys],
-    'detected': bool(keys),
-    'detected_by_own_property': any(c == prop for c, _ in keys),
+    'first_run_against_repo': [{'check': c, 'key': k} for c, k in keys],
 }
 json.dump(meta, open(os.path.join(dst, 'meta.json'), 'w'), indent=1)
 print(tag, 'kept; detected by', sorted(set(c for c, _ in keys)) or 'NOTHING')
